@@ -1286,6 +1286,7 @@ class _FakeDatetimeMod_unused:
 
 _INSTALLED = False
 _PRISTINE = []     # (owner, attribute name, value) for simple conductor globals / class attributes
+_PRISTINE_EMPTY = []   # (owner, attribute name, container type) for containers that are empty in a fresh process
 
 
 def _record_pristine_state():
@@ -1307,9 +1308,25 @@ def _record_pristine_state():
                 for ck, cv in list(vars(v).items()):
                     if not ck.startswith("__") and isinstance(cv, simple):
                         _PRISTINE.append((v, ck, cv))
+            elif str(getattr(type(v), "__module__", "")).split(".")[0] == "conductor" and hasattr(v, "__dict__") \
+                    and not isinstance(v, (type, types.FunctionType, types.ModuleType)):
+                # a module-level object of one of Conductor's own classes (a state holder such as an "abort
+                # controller"): its simple attributes and its empty containers are part of the fresh-process state too
+                for ck, cv in list(vars(v).items()):
+                    if isinstance(cv, simple):
+                        _PRISTINE.append((v, ck, cv))
+                    elif isinstance(cv, (list, dict, set)) and not cv:
+                        _PRISTINE_EMPTY.append((v, ck, type(cv)))
 
 
 def restore_pristine_state():
+    for owner, k, ctype in _PRISTINE_EMPTY:
+        try:
+            cur = getattr(owner, k, None)
+            if isinstance(cur, ctype) and cur:
+                cur.clear()
+        except Exception:
+            pass
     for owner, k, v in _PRISTINE:
         try:
             if getattr(owner, k, None) is not v and getattr(owner, k, None) != v:
